@@ -1,5 +1,14 @@
 /-
-Theorems about the three-point rainflow detector model (`tpRun`).
+C03 for the three-point rainflow detector model (`tpRun`): equivariance under negation and under
+increasing affine maps, for arbitrary chunkings.
+
+The helper lemmas (`Proofs/Lemmas/ThreePoint.lean`) also contain the key fact for C01/C02,
+`PylifeVerif.ThreePoint.tpRun_eq_fpRun : tpRun cs = fpRun cs`: the three-point model and the
+four-point model compute the same detector state (cycles even in the same order) on every list of
+chunks.  `Proofs/ThreePointC02.lean` and `Proofs/ThreePointC01.lean` derive
+`threePoint_same_cycles` and `threePoint_chunk_independent` from it.
+
+`tpMapPt` / `tpMapCycle` are private copies of `C03.mapPt` / `C03.mapCycle` (same definitions).
 -/
 import Proofs.Lemmas.ThreePoint
 
@@ -25,10 +34,28 @@ theorem threePoint_affine (cs : List (List Int)) (a b : Int) (ha : 0 < a) :
   rw [h]
   exact ⟨rfl, rfl, rfl⟩
 
+/-! Non-vacuity / sanity: a chunked signal with plateaus, a nested cycle and hf/lf updates. -/
+
+example : (tpRun [[0, 5, 5, 2], [4, 4, 1, 6], [6, 0]]).cycles = [((3, 2), (4, 4)), ((1, 5), (6, 1))] := by
+  decide +kernel
+
+example := threePoint_neg [[0, 5, 5, 2], [4, 4, 1, 6], [6, 0]]
+example := threePoint_affine [[0, 5, 5, 2], [4, 4, 1, 6], [6, 0]] 3 (-7) (by decide)
+
+/-- the theorem used on the example: the cycles `(3,2)-(4,4)`, `(1,5)-(6,1)` are mapped -/
+example : (tpRun ([[0, 5, 5, 2], [4, 4, 1, 6], [6, 0]].map (List.map fun x => 3 * x + -7))).cycles =
+    [((3, -1), (4, 5)), ((1, 8), (6, -4))] := by
+  have h := (threePoint_affine [[0, 5, 5, 2], [4, 4, 1, 6], [6, 0]] 3 (-7) (by decide)).1
+  have h0 : (tpRun [[0, 5, 5, 2], [4, 4, 1, 6], [6, 0]]).cycles = [((3, 2), (4, 4)), ((1, 5), (6, 1))] := by
+    decide +kernel
+  rw [h, h0]
+  decide
+
 end PylifeVerif.C03
 
 section AxiomCheck
 open PylifeVerif.C03
 #print axioms threePoint_neg
 #print axioms threePoint_affine
+#print axioms PylifeVerif.ThreePoint.tpRun_eq_fpRun
 end AxiomCheck
